@@ -20,8 +20,8 @@ Proof. exact TruncProofs.truncation_rejected_decode. Qed.
 Theorem eof_only_for_empty_stream : forall read_all s, kas_open read_all s = Err E_EOF <-> s = [].
 Proof. exact TruncProofs.eof_iff_empty. Qed.
 
-(* (g) header fields: another magic, another major version, another file_size are rejected,
-   whatever the rest of the file is (num_items: differential only, see notes) *)
+(* (g) header fields: another magic, another major version, another num_items, another file_size
+   are rejected, whatever the rest of the file is *)
 Theorem magic_rejected : forall read_all magic major minor n fs r rest,
   length magic = 8%nat -> length r = 40%nat -> 0 <= major < 65536 -> 0 <= n < 4294967296 -> 0 <= fs < two64 ->
   magic <> kas_magic ->
@@ -40,6 +40,11 @@ Theorem file_size_rejected : forall its fs' minor r40 y,
   exists e, kas_open true (header_bytes kas_file_version_major minor (kw_n its) fs' r40 ++ kw_descs its ++ y) = Err e.
 Proof. exact CorruptProofs.file_size_rejected. Qed.
 
+Theorem num_items_rejected : forall its n' minor r40 y,
+  items_ok its -> its <> [] -> length r40 = 40%nat -> 0 <= n' < 4294967296 -> n' <> kw_n its ->
+  exists e, kas_open true (header_bytes kas_file_version_major minor n' (kw_fs its) r40 ++ kw_descs its ++ y) = Err e.
+Proof. exact CorruptProofs.num_items_rejected. Qed.
+
 (* (i) bytes the format reserves (header 24..63, descriptor 1..7 and 40..63) and the minor version
    do not influence the reader: finding F10, first half, as a theorem *)
 Theorem ignored_bytes_identity : forall its minor r40 rs y,
@@ -48,6 +53,21 @@ Theorem ignored_bytes_identity : forall its minor r40 rs y,
                  ++ descs_bytes_g (layout (kw_k its) (kw_a its) its) rs ++ y)
   = kas_open true (kw_header its ++ kw_descs its ++ y).
 Proof. exact CorruptProofs.ignored_bytes_identity. Qed.
+
+(* (h) descriptor fields: strict sequential packing rejects ANY other key_start and ANY other
+   array_start of any item ([altered_descs its pre it post f] = the descriptors as written, with
+   f applied to the descriptor of the item after [pre]).  For array_len the general statement is
+   false (refuted below), for key_len of the last key and for the type byte it holds only outside
+   the alignment slack (findings F16/F17): those are tied differentially. *)
+Theorem key_start_rejected : forall its pre it post v y,
+  items_ok its -> its = pre ++ it :: post -> 0 <= v < two64 -> v <> kw_k its + keys_len pre ->
+  exists e, kas_open true (kw_header its ++ descs_bytes (altered_descs its pre it post (fun d => set_ks d v)) ++ y) = Err e.
+Proof. exact CorruptProofs.key_start_rejected. Qed.
+
+Theorem array_start_rejected : forall its pre it post v y,
+  items_ok its -> its = pre ++ it :: post -> 0 <= v < two64 -> v <> align8 (layout_end (kw_a its) pre) ->
+  exists e, kas_open true (kw_header its ++ descs_bytes (altered_descs its pre it post (fun d => set_as d v)) ++ y) = Err e.
+Proof. exact CorruptProofs.array_start_rejected. Qed.
 
 (* (j) REFUTED: "altered key bytes are rejected" - optional key, finding F10 *)
 Theorem optional_key_drop_refuted :
@@ -58,7 +78,7 @@ Theorem optional_key_drop_refuted :
     end = true.
 Proof. exact CorruptProofs.optional_key_drop_refuted. Qed.
 
-(* (h) REFUTED: "an altered descriptor field is rejected" - array_len, 64-bit wrap-around
+(* (h) REFUTED for array_len: "an altered descriptor field is rejected" - 64-bit wrap-around
    (finding F15: out-of-bounds read, SIGSEGV in the implementation) and alignment slack (F16) *)
 Theorem array_len_wrap_refuted :
   exists p v, p = 64 + 64 * 45 + 39 /\ byte_ok v /\ nth (Z.to_nat p) f0 0 <> v /\
